@@ -30,7 +30,10 @@ Three layers, as in the code:
 Ghost fields (never read by the transitions): `used`, `born` on entries (logical instants of the
 last use / of the insertion that created the entry), `tick`, `stored` (every successful
 completion, newest first: `lookup stored k` is the specification map `key → (value, storedAt)`),
-`callKey` (serial of an inner call → key of the request it was made for), `log`.
+`callKey` (serial of an inner call → key of the request it was made for), `log`. Only `log` is compared with
+the implementation; `stored`, `callKey`, `used` and `born` are tied to it by theorems (`TR/Lemmas/CacheLog.lean`:
+the echo line is injective, `callKey` and `stored` are functions of the log; `CacheRecency.lean`: the LRU order is the
+recency of the keys in the log; `CacheSince.lean`: LFU counts and the FIFO order over the history).
 -/
 namespace TR.Cache
 
@@ -80,13 +83,18 @@ def expired (ttl : Option Nat) (now : Nat) (e : Entry) : Bool :=
   | some d => decide (now - e.ins > d)
   | none   => false
 
-/-- `CacheStore::get`: the container's `get` runs first (and promotes / counts), an expired entry
-is then removed — promote-then-remove is the same as remove, which is what is written here -/
+/-- `CacheStore::get` as it is written (`store.rs:51-61`), in its two phases: the container's own
+`get` runs **first** (`self.store.get(key)?` — LRU promotes the entry, LFU counts the use, FIFO does
+nothing), and only then is the entry it returned tested; an expired one is removed from the already
+touched container (`self.store.remove(key)`) and the read misses. That promote-then-remove leaves the
+same container as a plain remove is a theorem, not an assumption: `TR.Cache.rm_touch` and
+`TR.Cache.storeGet_eq` (`TR/Lemmas/Cache.lean`), on which every proof about a read rests. -/
 def storeGet (cfg : Cfg) (now tick : Nat) (items : List Entry) (k : Nat) : List Entry × Option Nat :=
   match find items k with
   | none   => (items, none)
-  | some e => if expired cfg.ttl now e then (rm k items, none)
-              else (touch cfg.policy tick e items, some e.val)
+  | some e =>
+      let touched := touch cfg.policy tick e items
+      if expired cfg.ttl now e then (rm k touched, none) else (touched, some e.val)
 
 def isMin (items : List Entry) (e : Entry) : Bool := items.all (fun x => decide (e.cnt ≤ x.cnt))
 
